@@ -126,6 +126,9 @@ class HumanMessageSerializer:
                     # UUID-ish
                     elif re.match(r"\A\w+-\w+-.*", var_val):
                         var_val = datatypes.UUID(var_val)
+                    # non-finite floats have no literal form, but that's how they're printed
+                    elif re.match(r"\A[+-]?(inf|nan)\Z", var_val):
+                        var_val = float(var_val)
                     else:
                         var_val = ast.literal_eval(var_val)
 
